@@ -215,8 +215,8 @@ def _correspond(ctx, rng):
     imports = ('Require Import Base.C11_Unique Model.C11_Topo Gen.C11Refdom.\n'
                'From Coq Require Import List ZArith Bool.')
     defs = kind_defs() + CORR_DEFS
-    n_geo = ctx.n(30, 120)
-    n_abs = ctx.n(10, 40)
+    n_geo = ctx.n(20, 120)
+    n_abs = ctx.n(8, 40)
     cases2, cases3, casesf = [], [], []
     for kind in KINDS:
         for i in range(n_geo + n_abs):
@@ -249,9 +249,9 @@ def _correspond(ctx, rng):
                 cases3.append((case_input(kind, m), out3, rep))
             if outf is not None:
                 casesf.append((case_input(kind, m), outf, rep))
-    ctx.corr('tables', imports, 'run2', 'zsss_eqb', cases2, per_file=60, defs=defs, nontrivial=lambda r: r[3])
-    ctx.corr('tables3d', imports, 'run3', 'zsss_eqb', cases3, per_file=40, defs=defs, nontrivial=lambda r: r[3])
-    ctx.corr('f2e', imports, 'runf2e', 'zss_eqb', casesf, per_file=40, defs=defs, nontrivial=lambda r: r[3])
+    ctx.corr('tables', imports, 'run2', 'zsss_eqb', cases2, per_file=min(400, -(-len(cases2) // 4)), defs=defs, nontrivial=lambda r: r[3])
+    ctx.corr('tables3d', imports, 'run3', 'zsss_eqb', cases3, per_file=min(400, -(-len(cases3) // 3)), defs=defs, nontrivial=lambda r: r[3])
+    ctx.corr('f2e', imports, 'runf2e', 'zss_eqb', casesf, per_file=min(400, -(-len(casesf) // 2)), defs=defs, nontrivial=lambda r: r[3])
 
 
 # ------------------------------------------------------------------------------ oracle (set based, independent code)
